@@ -222,8 +222,8 @@ impl FloatEncoding for f32 {
             } else {
                 Inexact(f32::NEG_INFINITY, Sign::Negative)
             };
-        } else if top_bit < -125 - 23 {
-            // underflow
+        } else if top_bit < -126 - 23 {
+            // underflow: below half of the smallest subnormal 2^-149
             return if sign == 0 {
                 Inexact(0f32, Sign::Negative)
             } else {
